@@ -73,7 +73,10 @@ func cmdSem(args []string) {
 	if len(args) != 4 {
 		die(2, "usage: vh sem <corpus> <seed> <n> <out>")
 	}
-	cfg := corpusCfg(args[0])
+	var cfg genCfg
+	if args[0] != "allot" {
+		cfg = corpusCfg(args[0])
+	}
 	seed, n := argInt(args[1]), argInt(args[2])
 	r := rand.New(rand.NewSource(int64(seed)*7919 + int64(len(args[0]))))
 	lw := newLineWriter(args[3])
@@ -83,7 +86,12 @@ func cmdSem(args []string) {
 	written := 0
 	var samples []any
 	for i := 0; i < n; i++ {
-		c := genCase(r, cfg, i)
+		var c *Case
+		if args[0] == "allot" {
+			c = genAllotCase(r, i)
+		} else {
+			c = genCase(r, cfg, i)
+		}
 		er := execCase(c)
 		if er.dropped != "" {
 			dropped[er.dropped]++
@@ -197,6 +205,8 @@ func main() {
 		cmdSem(os.Args[2:])
 	case "rerun":
 		cmdRerun(os.Args[2:])
+	case "rec":
+		cmdRec(os.Args[2:])
 	default:
 		die(2, "unknown command %s", os.Args[1])
 	}
